@@ -119,3 +119,49 @@ Proof.
   pose proof (Hub M' (Permutation_in _ (Permutation_sym HPm) Hin')).
   lia.
 Qed.
+
+(* ---- BALANCE < plain number: total, and independent of the hash-table order ---- *)
+Definition plain_scalar (w : value) : Prop :=
+  match w with VInt _ => True | VAmt a => acomm a = None | _ => False end.
+
+Lemma v_gt_amt_plain_total w x : plain_scalar w -> exists r, v_gt_amt w x = Ok r.
+Proof.
+  destruct w as [| | y | a | ]; cbn [plain_scalar]; try contradiction; intros Hp; unfold v_gt_amt, amt_compare, diff_comm, has_comm.
+  - cbn [amt_of_Z acomm]. rewrite andb_false_r. cbn. eexists. reflexivity.
+  - rewrite Hp. cbn. eexists. reflexivity.
+Qed.
+
+Lemma bal_all_lt_plain_total w : plain_scalar w -> forall b, exists r, bal_all_lt b w = Ok r.
+Proof.
+  intros Hp. induction b as [|x b [r IH]]; cbn [bal_all_lt]; [eexists; reflexivity|].
+  destruct (v_gt_amt_plain_total w x Hp) as [l ->]. cbn [bind]. destruct l; [exists r; exact IH | eexists; reflexivity].
+Qed.
+
+Lemma plain_scalar_q w : plain_scalar w -> exists q, scalar_q w = Some q.
+Proof. destruct w; cbn; try contradiction; intros _; eexists; reflexivity. Qed.
+
+Lemma bal_all_lt_plain_perm w b b' :
+  plain_scalar w -> Permutation b b' -> bal_all_lt b w = bal_all_lt b' w.
+Proof.
+  intros Hp HP. destruct (plain_scalar_q w Hp) as [q Hq].
+  destruct (bal_all_lt_plain_total w Hp b) as [r Hr]. destruct (bal_all_lt_plain_total w Hp b') as [r' Hr'].
+  rewrite Hr, Hr'. f_equal.
+  pose proof (bal_all_lt_exact w q Hq b r Hr) as H. pose proof (bal_all_lt_exact w q Hq b' r' Hr') as H'.
+  destruct r, r'; try reflexivity.
+  - assert (HF : Forall (fun x => (aq x < q)%Q) b') by (eapply Permutation_Forall; [exact HP | apply H; reflexivity]).
+    apply H' in HF. discriminate.
+  - assert (HF : Forall (fun x => (aq x < q)%Q) b) by (eapply Permutation_Forall; [apply Permutation_sym; exact HP | apply H'; reflexivity]).
+    apply H in HF. discriminate.
+Qed.
+
+Lemma v_ltb_balance_plain_perm w b b' :
+  plain_scalar w -> Permutation b b' -> v_ltb (VBal b) w = v_ltb (VBal b') w.
+Proof.
+  intros Hp HP. destruct w as [| | y | a | ]; cbn [plain_scalar] in Hp; try contradiction; cbn [v_ltb].
+  - destruct b as [|x b0], b' as [|x' b0']; try reflexivity;
+      try (apply Permutation_nil in HP; discriminate); try (apply Permutation_sym, Permutation_nil in HP; discriminate).
+    apply (bal_all_lt_plain_perm (VInt y)); [exact I | exact HP].
+  - destruct b as [|x b0], b' as [|x' b0']; try reflexivity;
+      try (apply Permutation_nil in HP; discriminate); try (apply Permutation_sym, Permutation_nil in HP; discriminate).
+    apply (bal_all_lt_plain_perm (VAmt a)); [exact Hp | exact HP].
+Qed.
